@@ -27,6 +27,7 @@ inductive Err
   | noInterval       -- `varsec[varindex+1]` would be read past the end
   | badMaxgap        -- wrapper: maxgapsec < 3600
   | tooShort         -- wrapper: no observation / negative size
+  | lengthMismatch   -- Cython entry point: `assert nvalvar == varvalues.shape[0]`
   deriving DecidableEq, Repr
 
 /-- one observation: epoch second and value -/
@@ -151,6 +152,84 @@ def kernel (c : Cfg α) (hstart : Int) (nvalh : Int) (obs : List (Obs α)) : Exc
     | none => .error .startBeforeData
     | some suf => loop c hstart (nvalh - 1).toNat 0 suf
 
+/-! ### the control skeleton of the kernel: which periods are missing, in whole-second arithmetic only
+
+Everything that decides whether a period is missing is a comparison between whole seconds or the validity test of
+one interval.  `marks` keeps, of every observation, its stamp and "the interval that ends here is invalid" (the
+kernel's own test, evaluated in the arithmetic at hand); `kernelMiss` is the pointer walk on these marks with the
+numbers erased.  `Props/C14.lean` (`missing_pattern_is_skeleton`) shows that the kernel's missing pattern is
+`kernelMiss` of the marks in every arithmetic in which whole seconds are cast, added and subtracted exactly —
+no law of multiplication, division or rounding is used. -/
+
+/-- stamp, and whether the interval ending at this observation is invalid -/
+abbrev Mark := Int × Bool
+
+def marksFrom (c : Cfg α) : Obs α → List (Obs α) → List Mark
+  | _, [] => []
+  | a, b :: r => (b.1, invalid c a b) :: marksFrom c b r
+
+def marks (c : Cfg α) : List (Obs α) → List Mark
+  | [] => []
+  | a :: l => (a.1, false) :: marksFrom c a l
+
+/-- a rational stand-in for an observation: same stamp, same validity class of the value
+(missing / below `-eps` / acceptable); `Props/C14.lean` (`missing_pattern_same_as_exact`): the exact-rational kernel
+on the stand-ins has the missing pattern of the kernel in the arithmetic at hand -/
+def toQ (c : Cfg α) (x : Obs α) : Obs Rat := (x.1, x.2.map fun v => if v < -c.eps then (-1 : Rat) else 0)
+
+/-- the same scalar arguments with the kernel's literal tolerance as an exact rational -/
+def cfgQ (c : Cfg α) : Cfg Rat := ⟨c.P, c.rain, c.maxgap, 1 / 100000000⟩
+
+end numeric
+
+/-- the `while(t1<end)` loop on marks: the `miss` flag and the suffix after the rewind -/
+def walkM (E : Int) : Mark → List Mark → Bool → Except Err (Bool × (Mark × List Mark))
+  | _, [], _ => .error .noInterval
+  | a, b :: rest, m =>
+    if b.1 < a.1 then .error .decreasing
+    else
+      let m' := m || b.2
+      match rest with
+      | [] => .ok (m' || decide (b.1 < E), (a, [b]))
+      | _ :: _ => if b.1 < E then walkM E b rest m' else .ok (m', (a, b :: rest))
+
+def periodM (P hstart : Int) (i : Nat) (suf : Mark × List Mark) : Except Err (Bool × (Mark × List Mark)) :=
+  let E := hstart + (i : Int) * P + P
+  if suf.1.1 < E then walkM E suf.1 suf.2 false else .error .emptyWalk
+
+def loopM (P hstart : Int) : Nat → Nat → Mark × List Mark → Except Err (List Bool)
+  | 0, _, _ => .ok []
+  | n + 1, i, suf =>
+    match periodM P hstart i suf with
+    | .error x => .error x
+    | .ok (m, suf') =>
+      match loopM P hstart n (i + 1) suf' with
+      | .error x => .error x
+      | .ok ms => .ok (m :: ms)
+
+def scanFromM (hstart : Int) : Mark → List Mark → Mark × List Mark
+  | a, [] => (a, [])
+  | a, b :: rest =>
+    match rest with
+    | [] => (a, [b])
+    | _ :: _ => if b.1 ≤ hstart then scanFromM hstart b rest else (a, b :: rest)
+
+def startScanM (hstart : Int) : List Mark → Option (Mark × List Mark)
+  | a :: b :: rest => if a.1 ≤ hstart then some (scanFromM hstart a (b :: rest)) else none
+  | _ => none
+
+/-- the missing pattern of `c_var2h` for periods `0 .. nvalh-2` (`true` = missing) -/
+def kernelMiss (P rain hstart nvalh : Int) (ms : List Mark) : Except Err (List Bool) :=
+  if rain < 0 ∨ 1 < rain then .error .badRainfall
+  else if P ≠ 1800 ∧ P ≠ 3600 then .error .badPeriod
+  else match startScanM hstart ms with
+    | none => .error .startBeforeData
+    | some suf => loopM P hstart (nvalh - 1).toNat 0 suf
+
+section numeric
+variable {α : Type} [Add α] [Sub α] [Mul α] [Div α] [Neg α] [LT α] [DecidableLT α]
+  [OfNat α 0] [OfNat α 2] [IntCast α]
+
 /-! ### wrapper arithmetic (`dutils.var2h`): the epoch seconds of the stamps are a parameter -/
 
 /-- `datetime(y, m, d, h) + 1 hour` in epoch seconds: the first whole hour after the first stamp -/
@@ -173,6 +252,30 @@ def wrapper (c : Cfg α) (obs : List (Obs α)) : Except Err (Int × List (Option
         | .error x => .error x
         | .ok hs => .ok (hstart, if nvalh = 0 then [] else hs ++ [none])
     | _, _ => .error .tooShort
+
+/-- `maxgapsec = np.int32(maxgapsec)` for a Python number (int or float) given as an exact rational: truncation
+towards zero -/
+def maxgapOfArg (q : Rat) : Int := Int.tdiv q.num (q.den : Int)
+
+/-- `dutils.var2h(se, nbsec_per_period, maxgapsec, rainfall)` with `maxgapsec` as passed -/
+def wrapperArg (P rain : Int) (maxgapArg : Rat) (eps : α) (obs : List (Obs α)) : Except Err (Int × List (Option α)) :=
+  wrapper ⟨P, rain, maxgapOfArg maxgapArg, eps⟩ obs
+
+/-! ### the returned series: values with their time labels (`pd.Series(hvalues, index=date_range(...))`) -/
+
+/-- `freq = "h" if nbsec_per_period == 3600 else "30min"`: the spacing of the returned index in seconds
+(the `else` branch is taken for every period other than 3600 — only 1800 gets past the first guard) -/
+def freqSec (P : Int) : Int := if P = 3600 then 3600 else 1800
+
+/-- `pd.date_range(hstart, freq=freq, periods=n)` in epoch seconds (wall clock, time-zone naive) -/
+def labels (hstart P : Int) (n : Nat) : List Int := (List.range n).map fun (i : Nat) => hstart + (i : Int) * freqSec P
+
+/-- what `dutils.var2h` returns: the series of `(label, value)` pairs, label = epoch second of the time stamp
+the value is attached to ("data are mapped to the beginning of the time stamp") -/
+def wrapperSeries (c : Cfg α) (obs : List (Obs α)) : Except Err (List (Int × Option α)) :=
+  match wrapper c obs with
+  | .error x => .error x
+  | .ok (hstart, vals) => .ok ((labels hstart c.P vals.length).zip vals)
 
 /-! ### the index as it is stored: unit and time zone
 
@@ -204,6 +307,75 @@ def obsOfIndex (u : TUnit) (l : List (Stamp α)) : List (Obs α) :=
 /-- `dutils.var2h` on a series whose index is stored in unit `u` -/
 def wrapperIdx (c : Cfg α) (u : TUnit) (l : List (Stamp α)) : Except Err (Int × List (Option α)) :=
   wrapper c (obsOfIndex u l)
+
+/-- the returned labelled series for an index stored in unit `u` -/
+def seriesIdx (c : Cfg α) (u : TUnit) (l : List (Stamp α)) : Except Err (List (Int × Option α)) :=
+  wrapperSeries c (obsOfIndex u l)
+
+/-! ### the kernel as it is called: results are written into the caller's buffer `hvalues`
+
+`c_var2h` does not return values, it writes `hvalues[i]` (first NaN, then the value) while it goes; whatever the
+buffer held before stays in every cell the loop does not reach — in particular in `hvalues[nvalh-1]`, the final
+period.  An error return before the loop leaves the buffer as it was; the `decreasing` return in the middle of
+period `i` leaves periods `0 .. i-1` written and `hvalues[i] = NaN`. -/
+
+/-- the `for` loop on a buffer: `(buffer afterwards, error return if any)` -/
+def loopInto (c : Cfg α) (hstart : Int) : Nat → Nat → Obs α × List (Obs α) → List (Option α) →
+    List (Option α) × Option Err
+  | 0, _, _, buf => (buf, none)
+  | n + 1, i, suf, buf =>
+    match period c hstart i suf with
+    | .error x => (buf.set i none, some x)
+    | .ok (h, suf') => loopInto c hstart n (i + 1) suf' (buf.set i h)
+
+/-- `c_var2h(nvalvar, nvalh, ..., hvalues)` on the buffer `buf` -/
+def kernelInto (c : Cfg α) (hstart : Int) (nvalh : Int) (obs : List (Obs α)) (buf : List (Option α)) :
+    List (Option α) × Option Err :=
+  if c.rain < 0 ∨ 1 < c.rain then (buf, some .badRainfall)
+  else if c.P ≠ 1800 ∧ c.P ≠ 3600 then (buf, some .badPeriod)
+  else match startScan hstart obs with
+    | none => (buf, some .startBeforeData)
+    | some suf => loopInto c hstart (nvalh - 1).toNat 0 suf buf
+
+/-- `c_hydrodiy_data.var2h(maxgapsec, hstartsec, nbsec_per_period, rainfall, display, varsec, varvalues, hvalues)`:
+`nvalh` is the length of `hvalues`, `nvalvar` the length of `varsec`, which `varvalues` must share -/
+def pyxVar2h (c : Cfg α) (hstart : Int) (varsec : List Int) (varvalues : List (Option α)) (hvalues : List (Option α)) :
+    List (Option α) × Option Err :=
+  if varsec.length ≠ varvalues.length then (hvalues, some .lengthMismatch)
+  else kernelInto c hstart (hvalues.length : Int) (varsec.zip varvalues) hvalues
+
+/-! ### call histories on one set of buffers (the caller owns `varsec`, `varvalues`, `hvalues`) -/
+
+/-- the caller's arrays -/
+structure Bufs (α : Type) where
+  varsec : List Int
+  varvalues : List (Option α)
+  hvalues : List (Option α)
+  deriving DecidableEq
+
+/-- what a caller can do between (and including) calls -/
+inductive Op (α : Type)
+  | setSec (k : Nat) (t : Int)              -- varsec[k] = t
+  | setVal (k : Nat) (v : Option α)         -- varvalues[k] = v
+  | scribble (v : Option α)                 -- hvalues[:] = v
+  | call (c : Cfg α) (hstart : Int)         -- c_hydrodiy_data.var2h(..., varsec, varvalues, hvalues)
+
+/-- one operation; a call changes `hvalues` only, and returns its error code (`none` = 0) -/
+def step (s : Bufs α) : Op α → Bufs α × Option Err
+  | .setSec k t => ({ s with varsec := s.varsec.set k t }, none)
+  | .setVal k v => ({ s with varvalues := s.varvalues.set k v }, none)
+  | .scribble v => ({ s with hvalues := s.hvalues.map fun _ => v }, none)
+  | .call c hstart =>
+    let r := pyxVar2h c hstart s.varsec s.varvalues s.hvalues
+    ({ s with hvalues := r.1 }, r.2)
+
+/-- a history: the state after it and the error codes it returned, in order -/
+def run (s : Bufs α) : List (Op α) → Bufs α × List (Option Err)
+  | [] => (s, [])
+  | op :: ops =>
+    let r := step s op
+    let rr := run r.1 ops
+    (rr.1, r.2 :: rr.2)
 
 end numeric
 
